@@ -1260,7 +1260,9 @@ fn c19_world(t: &mut Tape, forced: Option<(usize, bool)>) -> RunOut {
             label: Label::Unasserted,
             note: format!("{} {}", kind, if before { "before" } else { "after" }),
         });
-        let now_ns = m.auth.instant_ns - gen::gen_offset(t, false) / 4;
+        // time is not this property's subject: the server clock reads the request instant
+        let _ = gen::gen_offset(t, false);
+        let now_ns = m.auth.instant_ns;
         let wire = render(&m, t, &RenderOpts {
                 mask: crate::world::NOISE_ALL,
             noise: 1,
